@@ -15,8 +15,8 @@ RULE = (
     "one payload / purge, let one event reach the controller, or return the arrived events). Oracle: every requested output equals "
     "the sequential reference evaluation. non-trivial = >=2 tasks, >=1 edge, a requested output that is not a source, and an "
     "inter-host transfer happened or >=2 workers ran tasks or a multi-output task was consumed; distinct = fingerprint of (case, "
-    "delivered-event trace). Thorough tier additionally: 48 fault-free runs of the REAL cluster (harness.realcluster) with the same "
-    "value oracle"
+    "delivered-event trace). Additionally 16 (quick) / 48 (thorough) fault-free runs of the REAL cluster (harness.realcluster: real "
+    "processes, zmq over loopback, real Bridge, executor loop, data server and shm server) with the same value oracle"
 )
 ASSUMPTIONS = [
     "transport, the executor's forwarding loop, the data server and shared memory are simulated (FIFO per sender/receiver pair); the "
@@ -43,7 +43,7 @@ def _nt(c):
 
 
 def _real_body(stats):
-    """Thorough tier only: fault-free runs of the REAL cluster (processes, zmq over loopback, shm server, data server) with the same
+    """Fault-free runs of the REAL cluster (processes, zmq over loopback, shm server, data server) with the same
     value oracle -- sampled evidence that the simulated seams behave like the real ones."""
     import os
     import shutil
@@ -89,16 +89,24 @@ def _real_body(stats):
 
 
 def shard(seed, cases, tier):
+    from hypothesis import strategies as st
+
+    from .. import common
+    from ..common import Stats
+    from ..genjob import job_specs
+
+    # the real-cluster samples run FIRST: they fork, and forking is only safe while this shard process has no other threads
+    # (the simulator's lock-step worker coroutines are threads; a fork next to them can leave the child with a lock nobody releases,
+    # which looked like a hanging cluster when the samples ran after the simulation)
+    real = Stats()
+    plans = st.builds(lambda j, h, w: {"job": j, "hosts": h, "workers": w}, job_specs(max_tasks=7, min_tasks=1, gpu=False, ext="any"),
+                      st.integers(1, 2), st.integers(1, 3))
+    # one real-cluster sample per shard in the quick tier (16 runs in parallel), three in the thorough tier (48)
+    common.hyp_run(plans, _real_body(real), real, seed + 13, 3 if tier == "thorough" else 1, shrink=False)
+    if real.violations:
+        return real
     st_ = simcheck.shard(FAMILY, _nt, seed, cases, tier)
-    if tier == "thorough" and not st_.violations:
-        from hypothesis import strategies as st
-
-        from .. import common
-        from ..genjob import job_specs
-
-        plans = st.builds(lambda j, h, w: {"job": j, "hosts": h, "workers": w}, job_specs(max_tasks=7, min_tasks=1, gpu=False, ext="any"),
-                          st.integers(1, 2), st.integers(1, 3))
-        common.hyp_run(plans, _real_body(st_), st_, seed + 13, 3, shrink=False)
+    st_.merge(real)
     return st_
 
 
